@@ -111,6 +111,16 @@ def main():
                               "messages": [{"body": b"Subject: w\n\nwide\n", "sender": b"ws%d@origin.test" % wi, "rcpts": rc}], "outcomes": oc,
                               "script": [("inject", 0), ("answer", "lifo"), ("answer", "fifo"), ("answer", "random")],
                               "conc": (conc, 20) if chan == 0 else (10, conc), "announce": (ann, 120) if chan == 0 else (120, ann)})
+        if prop == "C04":
+            # a second queue manager started while the first still has attempts outstanding (an overlapping restart): it must refuse
+            # to run; whatever it writes to its own spawners would be a second attempt for recipients already being attempted
+            for v in range(3):
+                rc = [b"sd%dl@local.test" % v, b"sd%dr@remote.test" % v]
+                oc = {r.decode(): "K" for r in rc}
+                oc["sds%d@origin.test" % v] = "K"
+                sc = [("inject", 0), ("second_daemon",)] + ([("signal", "TERM"), ("second_daemon",)] if v == 1 else []) + [("answer", "fifo")] + ([("second_daemon",)] if v == 2 else [])
+                hists.append({"id": "second-daemon-%d" % v, "seed": 7000 + v, "strict": 0, "drain_rounds": 10,
+                              "messages": [{"body": b"Subject: s\n\nsecond\n", "sender": b"sds%d@origin.test" % v, "rcpts": rc}], "outcomes": oc, "script": sc})
         # crash points of the reference history: before every mutating call of the daemon / of the cleaner
         ref = reference_history(900)
         nsend, calls, _ = count_mutating(tree, ck, ref, "qmail-send")
@@ -206,6 +216,14 @@ def main():
         ck.sample({"history": str(r["h"]["id"]), "script": [list(x) for x in r["h"]["script"]][:8], "kill": r["h"].get("kill"), "fault": r["h"].get("fault"),
                    "events": [e["op"] for e in r["ev"]][:40]})
     qsengine.report(ck, prop, runs, bad)
+    if prop == "C04":
+        for r in runs:
+            for s2 in r.get("second", []):
+                ck.cov["second_daemon_attempts"] = ck.cov.get("second_daemon_attempts", 0) + 1
+                if s2.get("delcmd_bytes", 0) > 0 or s2["status"] != 111:
+                    ck.violation("C04:SecondQueueManagerRunsBesideTheFirst:status=%s:delcmd=%s" % (s2["status"], 1 if s2.get("delcmd_bytes") else 0),
+                                 "history %s: a second qmail-send started against the running one exited with %s (111 = refused) and wrote %d bytes of delivery commands (%s) while the first one's attempts for the same recipients were outstanding"
+                                 % (r["h"].get("id"), s2["status"], s2.get("delcmd_bytes", 0), s2.get("delcmd", "")), {"history": {"id": r["h"].get("id")}})
     ck.cov["rule"] = ("seeded histories (1-3 messages, local/remote recipients, outcome sequences over K/Z/D/garbled, report orders, ALRM/HUP/TERM+restart, "
                       "clock steps, concurrency and announced limits) + a crash of qmail-send before each of its %s mutating calls in a reference history "
                       "(data kept / un-synced data lost) + a crash of qmail-clean before each of its mutating calls + single failing calls of the daemon; "
